@@ -130,8 +130,8 @@ for P in [12, 13, 14, 15, 16, 17, 18, 19, 20]:
     bnd = [(64, 79), (1 << (P - 1), (1 << (P - 1)) + 15), ((1 << P) - 16, (1 << P) - 1), (1 << P, 1 << P)]
     for lo, hi in tiles + bnd + [x for x in allt if x not in bnd]:
         quick = (P in (12, 20)) and ((lo, hi) in tiles or (lo, hi) in bnd)
-        J('rans.step.P%d.prob_%d_%d' % (P, lo, hi), 'h_rans_step', ['C08'], defines=d + ['-DRS_PROB_LO=%d' % lo, '-DRS_PROB_HI=%d' % hi], unwind=4,
-          unwind_reason='renormalisation loop emits <= 2 bytes (checked by the unwinding assertion)', native=True, tier=None if quick else 'thorough', timeout=900, cost=6, no_vacuity=not quick)
+        J('rans.step.P%d.prob_%d_%d' % (P, lo, hi), 'h_rans_step', ['C08'], defines=d + ['-DRS_PROB_LO=%d' % lo, '-DRS_PROB_HI=%d' % hi], unwind=5,
+          unwind_reason='renormalisation loop emits <= 3 bytes (checked by the unwinding assertion)', native=True, tier=None if quick else 'thorough', timeout=900, cost=6, no_vacuity=not quick)
 for P in [12, 16, 20]:
     J('fmt.constants.P%d' % P, 'h_fmt_ans_constants', ['C05'], defines=DEFS + ['-DRANS_P=%d' % P], native=True, no_vacuity=True)
 TYPES_PRELUDE = ['vec_ans.h', 'core_types.h']
